@@ -5,6 +5,7 @@ expression, one value, timex == value == date.isoformat().  A sample of cases is
 a second, independent reference and under a shifted virtual wall clock: the result must not move.
 """
 import datetime as dt
+import re
 
 from rtmon import dtlib
 
@@ -31,6 +32,7 @@ def dates(r, n):
     return out
 
 
+FULL_WIDTH_DIGITS = str.maketrans('0123456789', '０１２３４５６７８９')
 TIME_TAILS = [' and after 6PM', ' and later 7 pm']
 
 
@@ -70,6 +72,9 @@ def check(m, culture, layout, d, q, st, en, ref, ctx, second=None):
             mech = 'date-unresolved'
         elif (r[0].start, r[0].end) != (st, en):
             mech = 'date-wrong-span'
+            if culture == 'de-de' and layout == 'd.Month yyyy' and r[0].start == st and r[0].end < en and re.fullmatch(r'[\t\u00a0 ]+\d{4}', q[r[0].end + 1:en + 1]) \
+                    and not q[r[0].end + 1:en + 1].startswith(' ' + q[en - 3:en + 1]):
+                mech = 'de-glued-day-month-loses-the-year-after-tab-or-nbsp'      # known-finding classifier
             if culture == 'zh-cn' and layout == 'yyyy年mm月dd日' and d.day < 10 and (r[0].start, r[0].end) == (st, en - 1):
                 mech = 'zh-zero-padded-day-span-stops-before-the-day-character'      # known-finding classifier
         elif len(dtlib.vals(r[0])) != 1:
@@ -172,6 +177,14 @@ def run(job, ctx):
             q = car.format(s)
             st = q.index(s)
             check(m, cu, name, d, q, st, st + len(s) - 1, ref, ctx, second)
+            if i % 9 == 0:
+                # typography: no-break spaces / tabs / doubled blanks between the parts, full-width digits (the usual CJK way of writing)
+                var = r.choice(['nbsp', 'tab', 'double', 'fullwidth'])
+                s3 = {'nbsp': s.replace(' ', '\u00a0'), 'tab': s.replace(' ', '\t'), 'double': s.replace(' ', '  '), 'fullwidth': s.translate(FULL_WIDTH_DIGITS)}[var]
+                if s3 != s and not (var == 'fullwidth' and cu not in ('en-us', 'zh-cn')):
+                    q3 = car.format(s3)
+                    st3 = q3.index(s3)
+                    check(m, cu, name, d, q3, st3, st3 + len(s3) - 1, ref, ctx, None)
             if cu == 'en-us' and i % 7 == 0:
                 # the date followed by a suffix word and a clock time (the date must survive whatever becomes of the time)
                 q2 = 'I can only leave on ' + s + r.choice(TIME_TAILS)
